@@ -33,3 +33,11 @@ CHECKS = {}
 for p in ("C02", "C05", "C08", "C09", "C16"):
     CHECKS[p] = make_core(p)
     LEVEL[p] = "model_checking"
+
+# family modules: harness/fam_*.py, each defines PROPS = {"Cxx": (function(out, tier, seed), level)}
+import glob, importlib, os
+for _f in sorted(glob.glob(os.path.join(os.path.dirname(__file__), "fam_*.py"))):
+    _m = importlib.import_module("harness." + os.path.basename(_f)[:-3])
+    for _p, (_fn, _lvl) in getattr(_m, "PROPS", {}).items():
+        CHECKS[_p] = _fn
+        LEVEL[_p] = _lvl
